@@ -12,7 +12,6 @@ import (
 	"time"
 
 	"github.com/sirupsen/logrus"
-	"golang.org/x/time/rate"
 
 	"github.com/atlassian/gostatsd"
 	"github.com/atlassian/gostatsd/pkg/stats"
@@ -128,11 +127,8 @@ func runDgram(in input) hlib.Case {
 	ch := make(chan []*statsd.Datagram)
 	logger := logrus.New()
 	logger.SetOutput(io.Discard)
-	limit := rate.Limit(0)
-	if in.LogBad {
-		limit = rate.Inf
-	}
-	dp := statsd.NewDatagramParser(ch, in.NS, in.IgnoreHost, 0, h, limit, false, logger)
+	limit := in.badLineLimit()
+	dp := statsd.NewDatagramParser(ch, in.NS, in.IgnoreHost, 0, h, limit, in.LogRaw, logger)
 	ctx, cancel := context.WithCancel(stats.NewContext(context.Background(), st))
 	defer cancel()
 	panicked := make(chan string, 2)
